@@ -177,6 +177,17 @@ def handle (args : List String) : Verdict :=
   | "ljg" :: rest => handlePot "ljg" rest
   | "cbspl" :: rest => handleCbspl rest
   | "cbspl-rejected" :: _ => { tag := "pot-cbspl-rejected" }
+  | "splder-rejected" :: _ => { tag := "spline-rejected" }
+  | "splder" :: ty :: per :: lastI :: rest =>
+    -- the reported derivative against the five-point derivative of the reported values (the pieces are cubics at most: exact up to rounding)
+    match (many rat 8).run rest with
+    | some ([_r, h, sc, der, vm2, vm1, vp1, vp2], []) =>
+      let num := (vm2 - 8 * vm1 + 8 * vp1 - vp2) / (12 * h)
+      let ok := absRat (der - num) ≤ sc / 10 ^ 6
+      let nm := if ty == "0" then "linear" else if ty == "1" then "cubic" else "akima"
+      { agree := ok, propOk := ok, tag := s!"spline-derivative-{nm}{if per == "1" then "-periodic" else ""}{if lastI == "1" then "-last-interval" else ""}",
+        msg := s!"SPLINE-DERIVATIVE {nm}: CalculateDerivative reports {showR der}, the values around the point have derivative {showR num}" }
+    | _ => { agree := false, msg := "bad-line", tag := "bad" }
   | _ => { agree := false, msg := "bad-line", tag := "bad" }
 
 end Driver.C07
